@@ -14,7 +14,7 @@ Raises Refuse on anything outside its subset (the caller records that as a broke
 import json, os, re, subprocess, sys
 from fractions import Fraction
 
-FUNCS_ACC = ["add_solution", "add_exchange", "add_surface", "add_reaction", "add_gas_phase",
+FUNCS_ACC = ["add_solution", "add_mix", "add_exchange", "add_surface", "add_reaction", "reaction_calc", "add_gas_phase",
              "add_kinetics", "add_pp_assemblage", "add_ss_assemblage"]
 
 
@@ -337,6 +337,7 @@ def gen_step(fns, srcbytes):
 
 # ------------------------------------------------------------------------------------------------ part B
 
+TRACK_LOCALS = ("add_mix", "reaction_calc")
 TARGET_MEMBERS = {"total_h_x": "T_H", "total_o_x": "T_O", "cb_x": "T_CB", "mass_water_aq_x": "T_WATER"}
 
 
@@ -497,9 +498,15 @@ class AccWalk:
         k = n.get("kind")
         if k in ("BinaryOperator", "CompoundAssignOperator") and n.get("opcode") in ("=", "+=", "-=", "*=", "/="):
             t = self.target_of(kids(n)[0])
+            op = {"+=": "1", "-=": "(-1)", "=": "0", "*=": "2", "/=": "3"}[n["opcode"]]
             if t:
-                op = {"+=": "1", "-=": "(-1)", "=": "0", "*=": "2", "/=": "3"}[n["opcode"]]
                 self.out.append((t, op, self.ax(kids(n)[1])))
+            elif self.fn["name"] in TRACK_LOCALS:
+                l = strip(kids(n)[0])
+                d = self.decls.get(l.get("referencedDecl", {}).get("id")) if l.get("kind") == "DeclRefExpr" else None
+                if d is not None and d.get("kind") == "VarDecl" and is_float_type(qualtype(d)) and not self.single(d):
+                    # value given to a multi-assigned floating local: recorded as  local - rhs  (== 0 after the statement)
+                    self.out.append(("T_LOCAL", op, '(ASub (AVar "%s") %s)' % (self.dlocal_name(d), self.ax(kids(n)[1]))))
         if k == "CXXMemberCallExpr":
             m = strip(kids(n)[0])
             nm = m.get("name") if m.get("kind") == "MemberExpr" else None
@@ -539,6 +546,8 @@ Local Open Scope string_scope.
 
 def generate(repo):
     fns, srcbytes = clang_ast(repo)
+    more, _ = clang_ast(repo, "reaction_calc")
+    fns.update(more)
     return HEADER + gen_step(fns, srcbytes) + "\n" + gen_acc(fns, srcbytes)
 
 
